@@ -19,14 +19,18 @@ import json
 import os
 
 import paho.mqtt.client as mqtt
+from paho.mqtt.packettypes import PacketTypes
+from paho.mqtt.properties import Properties
 from paho.mqtt.subscribeoptions import SubscribeOptions
 from vlib import impl, model
 
 RULE = ("exhaustive: every string over {a,+,#,/,$} of length 0..7 (97 656) as subscribe filter and as publish topic, "
         "for MQTTv31/v311/v5 x connected/disconnected, plus the static predicates; random Unicode strings (multi-byte, "
         "astral, NUL, look-alike wildcards, lone surrogates); 65535/65536-byte boundaries (ASCII and multi-byte); "
-        "publish matrix topic class x QoS -2..4 x 13 payload types on clients holding in-flight state; payload length "
-        "268435455/268435456 (len-faking bytes subclass; real 256 MiB objects in the thorough tier); subscribe: small-scope "
+        "publish matrix topic class x QoS -2..4 x 13 payload types on clients holding in-flight state; packet-size boundary "
+        "(remaining length 268435455/268435456 for topic lengths 0/1/3/65535, QoS 0..2, with and without v5 properties, payload "
+        "268435455/268435456; len-faking bytes subclass, real 256 MiB objects in the thorough tier); SUBSCRIBE of 4096/4097 "
+        "maximal filters; subscribe: small-scope "
         "exhaustive over the symbolic argument domain (plain/tuple/list x item kinds x int/SubscribeOptions/other x qos "
         "-2..4 x options kinds) and random lists; unsubscribe forms. distinct = distinct (group, version, connected, "
         "argument); non-trivial = the call is rejected, or sits on a length boundary, or is one of the six documented forms")
@@ -421,7 +425,7 @@ def exhaustive_strings(ctx, out, j, maxlen):
         both = model.run_batch("validate", 12, [[vnum, 0, 0, 0, 0, 0] + E(b) for b in encs])
         m_doc = [r[:2] for r in both]           # [documented_ok; documented_shape]
         m_sub = [r[2:] for r in both]           # subscribe_norm result
-        both = model.run_batch("validate", 11, [[vnum, 0, 1, 1] + E(b) for b in encs])
+        both = model.run_batch("validate", 11, [[vnum, 0, 1, 1, 1] + E(b) for b in encs])
         m_pub = [r[:1] for r in both]           # publish_args_check result code
         m_pubspec = [r[1:] for r in both]       # [spec_publish_ok; spec_topic_ok]
         for connected in (True, False):
@@ -740,15 +744,26 @@ def topic_classes():
             ("long+", "a" * 70000 + "+")]
 
 
-def judge_publish(j, out, c, vnum, connected, text, qos, pname, mres, sres, group, payload=None, plen=None):
+def user_properties(n):
+    """a Properties object for PUBLISH with n user properties (its packed length is what the code adds)"""
+    p = Properties(PacketTypes.PUBLISH)
+    for i in range(n):
+        p.UserProperty = ("k%d" % i, "v")
+    return p
+
+
+def judge_publish(j, out, c, vnum, connected, text, qos, pname, mres, sres, group, payload=None, plen=None, nprops=None):
     case = {"kind": "publish", "v": vnum, "connected": connected,
             "topic": [ord(ch) for ch in text] if len(text) <= 40 else {"repeat": text[0], "chars": len(text), "tail": text[-1]},
             "qos": qos, "payload": pname}
     if plen is not None:
         case["payload_len"] = plen
+    if nprops is not None:
+        case["user_properties"] = nprops
     if payload is None:
         payload = PAYLOAD_BY_NAME[pname][1]()
-    r, before, after, mid0 = run_call(c, lambda cl: cl.publish(text, payload, qos))
+    props = user_properties(nprops) if nprops is not None else None
+    r, before, after, mid0 = run_call(c, lambda cl: cl.publish(text, payload, qos, properties=props))
     out.cases += 1
     out.stat(group)
     if mres is None:
@@ -769,8 +784,8 @@ def judge_publish(j, out, c, vnum, connected, text, qos, pname, mres, sres, grou
                     "pub-accepts-invalid-topic" if not topic_ok else "pub-accepts-invalid")
     if not ok_spec and r[0] == "raise":
         unsupported = PAYLOAD_BY_NAME.get(pname, (0, 0, 1, 0))[2] == 6
-        value_problem = (not topic_ok) or not (0 <= qos <= 2) or (plen is not None and plen > 268435455)
-        want = 1 if value_problem else (2 if unsupported else 1)
+        value_problem = (not topic_ok) or not (0 <= qos <= 2)     # these win over the payload TypeError
+        want = 1 if value_problem else (2 if unsupported else 1)  # supported type: only the size is left
         if r[1] != want:
             j.violation(case, f"wrong exception class: {r[2]}, expected {'ValueError' if want == 1 else 'TypeError'}",
                         "pub-wrong-exception")
@@ -788,7 +803,7 @@ def publish_matrix(ctx, out, j):
             for qos in range(-2, 5):
                 for pname, _, kind, plen in PAYLOADS:
                     keys.append((tname, text, qos, pname))
-                    args.append(([vnum, qos, kind, plen], b))
+                    args.append(([vnum, qos, kind, plen, 1], b))
         # the long topics would make the batch huge: send each distinct topic once per (qos, kind) only when short,
         # long ones with a reduced payload set
         def long_row(tname, qos, pname):
@@ -817,41 +832,98 @@ def publish_matrix(ctx, out, j):
                 "payload_types": [p[0] for p in PAYLOADS]})
 
 
+MAXRL = 268435455
+
+
 def payload_length_boundary(ctx, out, j):
+    """publish() refuses a packet whose remaining length (2 + topic + packet id + v5 properties + payload) exceeds
+    268435455. The arithmetic below only *chooses* inputs around the boundary; the verdict comes from the extracted
+    publish_args_check / spec_publish_ok."""
     for proto, vnum in VERSIONS:
-        rows = []
-        for plen in (268435455, 268435456, 300000000):
-            for qos in (0, 1):
-                rows.append((plen, qos))
-        both = model.run_batch("validate", 11, [[vnum, q, 1, n] + E(b"a") for n, q in rows])
-        m4, m8 = [r[:1] for r in both], [r[1:] for r in both]
+        rows = []    # (topic, qos, plen, nprops)
+        topics = ["a", "é€"] + ([""] if vnum == 5 else [])
+        for text in topics:
+            for qos in (0, 1, 2):
+                for npr in ((None, 2) if vnum == 5 else (None,)):
+                    pl = 0 if vnum != 5 else (1 if npr is None else len(user_properties(npr).pack()))
+                    overhead = 2 + len(text.encode("utf-8")) + (2 if qos else 0) + pl
+                    for plen in (MAXRL - overhead - 1, MAXRL - overhead, MAXRL - overhead + 1, MAXRL, MAXRL + 1, 300000000):
+                        rows.append((text, qos, plen, npr))
+        long_topic = "a" * 65535
+        for plen in (MAXRL - 2 - 65535 - (1 if vnum == 5 else 0), MAXRL - 2 - 65535 - (1 if vnum == 5 else 0) + 1):
+            rows.append((long_topic, 0, plen, None))
+
+        def enc(row):
+            text, qos, plen, npr = row
+            pl = 1 if npr is None else len(user_properties(npr).pack())
+            return [vnum, qos, 1, plen, pl] + E(text.encode("utf-8"))
+        both = model.run_batch("validate", 11, [enc(r) for r in rows])
         for connected in (True, False):
-            for (plen, qos), mr, sr in zip(rows, m4, m8):
-                if connected and plen <= 268435455:
+            for (text, qos, plen, npr), r in zip(rows, both):
+                mr, sr = r[:1], r[1:]
+                if connected and mr[0] == 0:
                     continue   # an accepted call would emit a packet whose body is not really that long
                 c = new_client(vnum, connected, loaded=True)
-                judge_publish(j, out, c, vnum, connected, "a", qos, "bytes-fake-len", mr, sr, "payload_len_fake",
-                              payload=FakeLenBytes(plen), plen=plen)
-                out.seen(("plf", vnum, connected, plen, qos))
+                judge_publish(j, out, c, vnum, connected, text, qos, "bytes-fake-len", mr, sr, "payload_len_fake",
+                              payload=FakeLenBytes(plen), plen=plen, nprops=npr)
+                out.seen(("plf", vnum, connected, text, plen, qos, npr))
+                c._out_messages.clear()
+                c._inflight_messages = 0
                 reset_after_conv(j, out, c, vnum, connected, "payload_len_fake", 1)
     if ctx.quick:
-        out.notes.append("payload length boundary checked with a len-faking bytes subclass only (real 256 MiB objects: thorough tier)")
+        out.notes.append("payload/packet length boundary checked with a len-faking bytes subclass only (real 256 MiB objects: thorough tier)")
         return
-    # real objects, once
+    # real objects, once: topic "a", QoS 0, MQTT 3.1.1 -> 268435452 bytes is the largest payload
     for kind_name, kind, make in (("bytes", 1, lambda n: bytes(n)), ("bytearray", 2, lambda n: bytearray(n)),
                                   ("str", 0, lambda n: "a" * n)):
-        for plen in (268435455, 268435456):
-            vnum = 5 if kind_name == "bytes" else 4
-            mr = model.run_one("validate", 4, [vnum, 1, kind, plen] + E(b"a"))
-            sr = model.run_one("validate", 8, [vnum, 1, kind, plen] + E(b"a"))
-            for connected in ((True, False) if plen > 268435455 else (False,)):
-                c = new_client(vnum, connected, loaded=True)
+        for plen in (MAXRL - 3, MAXRL - 2, MAXRL + 1):
+            both = model.run_one("validate", 11, [4, 0, kind, plen, 1] + E(b"a"))
+            mr, sr = both[:1], both[1:]
+            for connected in ((True, False) if mr[0] != 0 else (False,)):
+                c = new_client(4, connected, loaded=True)
                 p = make(plen)
-                judge_publish(j, out, c, vnum, connected, "a", 1, kind_name + "-real", mr, sr, "payload_len_real",
+                judge_publish(j, out, c, 4, connected, "a", 0, kind_name + "-real", mr, sr, "payload_len_real",
                               payload=p, plen=plen)
                 del p
-                c._out_messages.clear()
                 out.seen(("plr", kind_name, connected, plen))
+
+
+def subscribe_total_size(ctx, out, j):
+    """_send_subscribe refuses (ValueError from _pack_remaining_length, before a packet id is taken) a SUBSCRIBE whose
+    remaining length 2 [+ properties] + sum(2 + len(filter) + 1) exceeds 268435455: needs >= 4096 maximal filters, which
+    cannot be fed to the extracted model (268 M integers). Oracle here: that arithmetic restated in Python (the theorem
+    C19_subscribe_connected_exact covers the model side)."""
+    big = "a" * 65535
+    for proto, vnum in VERSIONS:
+        sizes = [4097] + ([4096] if (vnum == 4 or not ctx.quick) else []) + ([4095] if (not ctx.quick and vnum == 4) else [])
+        for n in sizes:
+            total = 2 + (1 if vnum == 5 else 0) + n * (2 + 65535 + 1)
+            for connected in (True, False):
+                c = new_client(vnum, connected, loaded=True)
+                arg = [(big, 0)] * n
+                r, before, after, mid0 = run_call(c, lambda cl: cl.subscribe(arg))
+                out.cases += 1
+                out.stat("subscribe_total_size")
+                case = {"kind": "subscribe-total-size", "v": vnum, "connected": connected, "filters": n, "filter_bytes": 65535,
+                        "remaining_length": total}
+                if not connected:
+                    if r[0] != "ok" or r[1] != (mqtt.MQTT_ERR_NO_CONN, None) or snap_diff(before, after):
+                        j.violation(case, f"disconnected subscribe of {n} valid filters: {r[:2]}", "sub-documented-rejected")
+                elif total > MAXRL:
+                    if r[0] != "raise" or r[1] != 1:
+                        j.violation(case, f"SUBSCRIBE with remaining length {total} was not refused with ValueError: {r[:2]}",
+                                    "sub-oversized-packet")
+                    else:
+                        judge_atomic(j, case, c, r, before, after, mid0)
+                else:
+                    if r[0] != "ok" or r[1] != (0, next_mid(mid0)) or len(after["wire"]) != 1 + 4 + total:
+                        j.violation(case, f"representable SUBSCRIBE ({total} bytes) rejected or not written: {r[:2]}",
+                                    "sub-documented-rejected")
+                    sock(c).wire.clear()
+                    c._out_packet.clear()
+                out.seen(("sts", vnum, connected, n))
+                del arg, before, after
+                reset_after_conv(j, out, c, vnum, connected, "subscribe_total_size", 1)
 
 
 # --------------------------------------------------------------------------- strings: boundaries and random
@@ -895,7 +967,7 @@ def boundary_and_random(ctx, out, j):
                 enc_ok.append(t.encode("utf-8"))
             except UnicodeEncodeError:
                 enc_ok.append(None)
-        rows = [[vnum, 1, 1, 3] + E(b) for b in enc_ok if b is not None]
+        rows = [[vnum, 1, 1, 3, 1] + E(b) for b in enc_ok if b is not None]
         both = model.run_batch("validate", 11, rows)
         m4, m8 = [r[:1] for r in both], [r[1:] for r in both]
         for connected in (True, False):
@@ -1018,6 +1090,7 @@ def run(ctx, out):
     run_subscribe_cases(ctx, out, j, random_sub_args(ctx, ctx.n(3000, 150000)), "subscribe_random", loaded=True, conv_every=2000)
     publish_matrix(ctx, out, j)
     payload_length_boundary(ctx, out, j)
+    subscribe_total_size(ctx, out, j)
     boundary_and_random(ctx, out, j)
     unsubscribe_forms(ctx, out, j)
     for sig, k in j.nviol.items():
@@ -1071,7 +1144,8 @@ def replay(payload):
         c = new_client(vnum, connected, loaded=True)
         text = _topic_text(case["topic"])
         pl = _payload_for(case)
-        r, before, after, mid0 = run_call(c, lambda cl: cl.publish(text, pl, case["qos"]))
+        props = user_properties(case["user_properties"]) if case.get("user_properties") is not None else None
+        r, before, after, mid0 = run_call(c, lambda cl: cl.publish(text, pl, case["qos"], properties=props))
         out_detail["result"] = repr(r)
         try:
             b = text.encode("utf-8")
@@ -1085,10 +1159,10 @@ def replay(payload):
             if kind_no is None:
                 kind_no = PAYLOAD_BY_NAME[name][2]
             plen = case.get("payload_len", PAYLOAD_BY_NAME.get(name, (0, 0, 0, 0))[3])
-            sres = model.run_one("validate", 8, [vnum, case["qos"], kind_no, plen] + E(b))
-            mres = model.run_one("validate", 4, [vnum, case["qos"], kind_no, plen] + E(b))
-            out_detail["spec_publish_ok"], out_detail["model"] = bool(sres[0]), mres
-            holds = (bool(sres[0]) == (r[0] == "ok")) and (r[0] == "ok" or r[1] == mres[0])
+            proplen = len(props.pack()) if props is not None else 1
+            both = model.run_one("validate", 11, [vnum, case["qos"], kind_no, plen, proplen] + E(b))
+            out_detail["model"], out_detail["spec_publish_ok"] = both[0], bool(both[1])
+            holds = (bool(both[1]) == (r[0] == "ok")) and (r[0] == "ok" or r[1] == both[0])
         if r[0] == "raise":
             out_detail["state_diff"] = snap_diff(before, after)
             holds = holds and not out_detail["state_diff"]
